@@ -20,7 +20,7 @@ BINARY = ["add", "subtract", "multiply", "true_divide", "floor_divide", "remaind
           "greater", "greater_equal", "bitwise_and", "bitwise_or", "bitwise_xor", "left_shift", "right_shift", "logical_and", "logical_or", "logical_xor"]
 ALIGN = ["identical", "coincident", "nested", "interleaved", "constA", "constB", "independent"]
 REDS = ["sum", "any", "all", "max", "mean", "np.sum", "np.any", "np.all", "np.mean"]
-KINDS = ["unary", "rl", "pyscalar", "npscalar", "reduce", "concat", "hist"]
+KINDS = ["unary", "rl", "rl_derived", "pyscalar", "npscalar", "reduce", "concat", "hist"]
 FLOOR_TAGS = ["k:" + k for k in KINDS] + ["align:" + a for a in ALIGN] + ["side:L", "side:R", "kind:b", "kind:i", "kind:u", "kind:f", "noncommutative"] + ["red:" + r for r in REDS]
 FLOOR_MONITORS = ["c16:compare", "c16:operands-unchanged", "c16:canonical", "inv:rla"]
 N_RANDOM = {"quick": 36000, "thorough": 400000}
@@ -82,6 +82,29 @@ def run(case):
         joined = True
         nontrivial = L >= 2 and (nruns >= 2 or len(np.asarray(rw.values)) >= 2)
         what = "%s(rla, encoded %s %s)" % (case["uf"], w.dtype, short(w, 100))
+    elif kind == "rl_derived":
+        # the second operand is *derived from the first one* (scalar / unary ufunc, astype): it shares the run boundaries, possibly the same array object
+        uf = getattr(np, case["uf"])
+        via = case["via"]
+        if via == "times2":
+            rw, w = (r * 2, dv * 2) if dt.kind != "b" else (np.logical_not(r), np.logical_not(dv))
+        elif via == "neg":
+            rw, w = (-r, -dv) if dt.kind not in "bu" else (r + 1, dv + 1) if dt.kind == "u" else (np.logical_not(r), np.logical_not(dv))
+        elif via == "astype":
+            rw, w = r.astype(np.float64), dv.astype(np.float64)
+        else:
+            rw, w = r, dv
+        dw = np.asarray(rw.to_array())
+        before2 = snapshot(rw)
+        tags += ["via:" + via, "side:" + case["side"], "uf:" + case["uf"]]
+        if case["uf"] in NONCOMM:
+            tags.append("noncommutative")
+        if case["side"] == "R":
+            o, a = attempt(uf, dv, dw), attempt(uf, r, rw)
+        else:
+            o, a = attempt(uf, dw, dv), attempt(uf, rw, r)
+        joined = True
+        what = "%s(%s)" % (case["uf"], "rla, %s(rla)" % via if case["side"] == "R" else "%s(rla), rla" % via)
     elif kind in ("pyscalar", "npscalar"):
         uf = getattr(np, case["uf"])
         s = case["scalar"] if kind == "pyscalar" else np.dtype(case["dtype2"]).type(case["scalar"])
@@ -111,7 +134,11 @@ def run(case):
         g, e = np.asarray(a.value), np.asarray(o.value)
         if g.shape != e.shape:
             return violated("%s returned %s, numpy gives %s" % (desc, short(a.value), short(o.value)), tags)
-        if "mean" in name:
+        if "mean" in name and dt.kind in "iub":
+            ex = sum(int(x) for x in dv.tolist()) / len(dv)
+            mag = sum(abs(int(x)) for x in dv.tolist()) / len(dv)
+            ok = abs(float(g) - ex) <= 1e-9 * max(1.0, mag)
+        elif "mean" in name:
             ok = np.allclose(g.astype(np.float64), e.astype(np.float64), rtol=1e-6 if dt.itemsize <= 4 and dt.kind == "f" else 1e-12, atol=0, equal_nan=True)
         else:
             ok = same_array(g.astype(np.float64) if g.dtype.kind != "b" else g, e.astype(np.float64) if e.dtype.kind != "b" else e, dtype=False)
@@ -250,8 +277,13 @@ def gen_case(rng, tier, kind=None, dtype=None, align=None, uf=None):
     elif kind == "npscalar":
         d2 = rng.choice(gen.DT_ALL)
         c.update(uf=uf or rng.choice(BINARY), dtype2=d2, scalar=gen.values(rng, d2, 1, "small").tolist()[0], side=rng.choice("LR"))
+    elif kind == "rl_derived":
+        c.update(uf=uf or rng.choice(BINARY), via=rng.choice(["times2", "neg", "astype", "self"]), side=rng.choice("LR"))
     elif kind == "reduce":
         c["name"] = rng.choice(REDS)
+        if "mean" in c["name"] and k in "iu" and rng.random() < 0.5:
+            c["vals"] = rl.gen_runs(rng, dtype, "extreme", maxlen)[0].tolist()
+            c["vclass"] = "extreme"
     elif kind == "concat":
         c["more"] = [rl.gen_runs(rng, dtype, "small", 6)[0].tolist() for _ in range(rng.randint(0, 3))]
     elif kind == "hist":
@@ -277,6 +309,13 @@ def directed():
         for uf in BINARY:
             for dtype in ["int64", "uint8", "float64"]:
                 yield gen_case(rng, "quick", "rl", dtype, align, uf)
+    for uf in sorted(NONCOMM) + ["add", "maximum"]:
+        for via in ("times2", "neg", "astype", "self"):
+            for side in "LR":
+                yield {"kind": "rl_derived", "dtype": "int64", "vals": [3, 3, 5, 5, 5, 1, 8], "uf": uf, "via": via, "side": side, "vclass": "small"}
+    for vals, dtype in (([2 ** 62, 2 ** 62, 2 ** 62, 5], "int64"), ([2 ** 63 - 1, 7, 7], "int64"), ([-2 ** 63, -2 ** 63, 0], "int64"), ([2 ** 64 - 1, 2 ** 64 - 1, 3], "uint64")):
+        for name in ("mean", "np.mean"):
+            yield {"kind": "reduce", "dtype": dtype, "vals": vals, "name": name, "vclass": "extreme"}
     # constant operand on either side of a non-commutative ufunc
     for uf in sorted(NONCOMM):
         yield {"kind": "rl", "dtype": "int64", "vals": [9] * 6, "dtype2": "int64", "vals2": [0, 0, 1, 1, 1, 4], "uf": uf, "align": "constA", "vclass": "small"}
